@@ -87,6 +87,23 @@ def gen(tier, rng):
                 if 0 <= ln < 128:
                     out.append("run %s slice %s all" % (m, hx(b"\x30" + bytes([ln]) + ie)))
                     out.append("run %s slice %s all" % (m, hx(b"\x30" + bytes([ln]) + ie + b"\x05\x00")))
+    # whole values of 64 KiB and more under every length form that can hold the length, content present
+    # (added after seeded change C02-7: a wrong minimality threshold in the four-octet arm of
+    # Length::take_from only shows when the content is really there), at top level, nested, and after a
+    # mode switch
+    for n in (65535, 65536, 65537, 70000):
+        content = bytes((i * 13 + 5) & 0xff for i in range(n))
+        for f in (3, 4):
+            if n >= (1 << (8 * f)):
+                continue
+            enc = b"\x04" + length(n, f) + content
+            for m in ("ber", "cer", "der"):
+                out.append("run %s slice %s all" % (m, hx(enc)))
+                if m == "cer":
+                    out.append("run cer slice %s all" % hx(b"\x30\x80" + enc + b"\x00\x00"))
+                else:
+                    out.append("run %s slice %s all" % (m, hx(b"\x30" + length(len(enc)) + enc)))
+            out.append("run ber slice %s tc { mode der all }" % hx(b"\x30" + length(len(enc)) + enc))
     return out
 
 def nontrivial(req, ans):
